@@ -105,6 +105,14 @@ Theorem choice_independent :
 Proof. exact Transparency.fed_choice_independent. Qed.
 Print Assumptions choice_independent.
 
+(** Kinds of sub-queries: whatever the request (query or mutation), every step of the plan that is not directly
+    below the root -- every hop -- is sent to its service as a query (the harness checks the kind every
+    service receives on every run, mutations included). *)
+Theorem hop_subqueries_are_queries :
+  forall root_kind p d svc k, In (d, svc, k) (step_kinds root_kind 0 p) -> d <> 1 -> k = "query".
+Proof. intros root_kind p d svc k. exact (FedBase.hops_are_queries root_kind p 0 d svc k). Qed.
+Print Assumptions hop_subqueries_are_queries.
+
 (** The two halves of the main theorem.  (P): planner + executor on a normalised query answer like the
     combined server asked that query with __typename on every union selection ([simv]: equal as maps once the
     _federation keys are deleted). *)
